@@ -39,6 +39,7 @@ var (
 	noGuide    = flag.Bool("noguide", false, "disable model-guided branching (always query both sides)")
 	nSamples   = flag.Int("samples", 6, "complete paths per harness exported with predicted observations (for native validation)")
 	progress   = flag.Bool("progress", false, "print progress every 10s")
+	noMerge    = flag.Bool("nomerge", false, "do not merge short-circuit conditions into ite terms")
 	noLambda   = flag.Bool("nolambda", false, "avoid array lambdas where a bounded unrolling exists")
 	mapOrder   = flag.String("maporder", "insertion", "map iteration order: insertion|reverse")
 	replayJSON = flag.String("concrete", "", "re-run one harness concretely with the inputs of this failure JSON")
@@ -100,7 +101,7 @@ func main() {
 		return
 	}
 	cfg := sym.Config{NSamples: *nSamples, FastTimeoutMs: 1500, Unwind: 64, MaxDecisions: 4000, MaxSteps: 20_000_000, TimeoutMs: 10000, Workers: *workers,
-		Solver: *solver, NoLambda: *noLambda, MapOrder: *mapOrder, Progress: *verbose || *progress, OneShot: *oneShot, NoModelGuide: *noGuide}
+		Solver: *solver, NoLambda: *noLambda, MapOrder: *mapOrder, Progress: *verbose || *progress, OneShot: *oneShot, NoModelGuide: *noGuide, NoMerge: *noMerge}
 	if *tier == "thorough" {
 		cfg.Unwind, cfg.TimeoutMs, cfg.MaxDecisions = 256, 60000, 20000
 		cfg.Tier = 1
